@@ -70,8 +70,11 @@ fn hist_cfg_for(seed: u64, m: &HashMap<String, String>) -> hist::HistCfg {
         profile,
         adversarial_keys: rng.gen_bool(0.7),
         big_values: rng.gen_bool(0.3),
-        max_snaps: 3,
-        max_iters: 2,
+        max_snaps: arg(m, "max-snaps", 3),
+        max_iters: arg(m, "max-iters", 2),
+        bias_snap: m.contains_key("snap-bias"),
+        bias_compact: m.contains_key("compact-bias"),
+        bias_reopen: m.contains_key("reopen-bias"),
     }
 }
 
